@@ -22,7 +22,7 @@ EXPLANATION = (
     "domain process runs only at clock edges (shared R-03a). NOT decided: equality with str.format over the grammar."
 )
 ASSUMPTIONS = ["CPython ast parses /repo's source as the interpreter would"]
-MIN_INSTANCES = {"R-20a": 8, "R-20b": 8, "R-20c": 8}
+MIN_INSTANCES = {"R-20e": 2, "R-20d": 2, "R-20a": 8, "R-20b": 8, "R-20c": 8}
 
 
 REF_BYTE_STEP = """
@@ -327,5 +327,49 @@ def r20taint(model, ctx):
         pyrtl_common.report(ctx, "R-01c", facts, errors)
 
 
-RULES = [("R-20a", r20a), ("R-20b", r20b), ("R-20c", r20c), ("R-01c", r20taint), ("R-03a", c03.r03a),
+
+def r20d(model, ctx):
+    """every domain of a fragment that has statements gets a compiled process, whether or not it drives a signal: prints and
+    assertions are statements without a target.  In _FragmentCompiler.__call__ the loop over the fragment's domains never
+    skips an iteration, and the process it builds is always added to the result."""
+    R = "R-20d"
+    from ..engine.astutil import parent_map
+    fn = model.func(f"{PYRTL}::_FragmentCompiler.__call__")
+    loops = [l for l in ast.walk(fn) if isinstance(l, ast.For) and isinstance(l.target, ast.Name) and l.target.id == "domain_name"]
+    need(len(loops) == 1, "_FragmentCompiler.__call__: the loop over the fragment's domains was not found")
+    lp = loops[0]
+    pm = parent_map(lp)
+
+    def owner_loop(node):
+        n = pm.get(node)
+        while n is not None and not isinstance(n, (ast.For, ast.While)):
+            n = pm.get(n)
+        return n
+    skips = [c for c in ast.walk(lp) if isinstance(c, (ast.Continue, ast.Break)) and (owner_loop(c) is None or owner_loop(c) is lp)]
+    ctx.check(not skips, R, "_FragmentCompiler:every-domain-compiled", "no domain of the fragment is skipped",
+              f"the loop over the fragment's domains skips an iteration (line(s) {[c.lineno for c in skips]}): a domain whose "
+              f"statements are only Print/Assert/Assume/Cover drives no signal but must still be compiled and woken by its clock",
+              f"{PYRTL}:{lp.lineno}")
+    adds = [c for c in ast.walk(lp) if isinstance(c, ast.Call) and unparse(c.func) == "processes.add" and
+            c.args and unparse(c.args[0]) == "domain_process"]
+    conds = []
+    for a in adds:
+        n = pm.get(a)
+        while n is not None and n is not lp:
+            if isinstance(n, (ast.If, ast.While, ast.For, ast.Try)):
+                conds.append(type(n).__name__)
+            n = pm.get(n)
+    ctx.check(len(adds) == 1 and not conds, R, "_FragmentCompiler:process-registered", "the domain's process is added unconditionally",
+              f"processes.add(domain_process) must be executed once per domain, unconditionally (found {len(adds)} under {conds})",
+              f"{PYRTL}:{lp.lineno}")
+
+
+
+def r20e(model, ctx):
+    """compared with their reference semantics (sa/refs/c20_print.py) by path summary"""
+    from .reflib import run_ref_file
+    run_ref_file(model, ctx, "R-20e", "c20_print")
+
+
+RULES = [("R-20e", r20e), ("R-20d", r20d), ("R-20a", r20a), ("R-20b", r20b), ("R-20c", r20c), ("R-01c", r20taint), ("R-03a", c03.r03a),
          ("R-03e", _only(c03.r03e, lambda c: c.startswith("EnableInserter")))]
